@@ -300,7 +300,7 @@ class C23(Property):
         if single and replay.get("into_dir"):
             os.makedirs(dst)
         try:
-            status, info = run_forked(lambda: real_extract(data, spec, base, dst), 20 if len(data) < 200_000 else 90)
+            status, info = run_forked(lambda: real_extract(data, spec, base, dst), 45 if len(data) < 200_000 else 150)
         except Hang as e:
             key = "truncation:makefile-copy-loop-never-ends" if cut and single and replay.get("into_dir") else f"{'truncation' if cut else 'chunking'}:hang"
             ctx.fail(key, f"{tag}: extract_tar_stream did not return ({e}); archive {len(data)} bytes, policy {spec}, cut {cut}", replay)
